@@ -1512,7 +1512,7 @@ fn progress(cx: &mut Ctx) {
     if let Ok(lx) = sm::load(&cx.repo, "parser/src/lexer.rs") {
         let t = sm::tsx(&lx.file);
         let eof_emits = t.contains("self.emit((Tok::EndOfFile,TextRange::empty(tok_pos)));");
-        let next_maps = t.contains("matchtoken{Ok((Tok::EndOfFile,_))=>None,r=>Some(r)}");
+        let next_maps = t.contains("matchtoken{Ok((Tok::EndOfFile,_))=>None,_=>Some(token)}");
         if eof_emits && next_maps {
             cx.ok(rule, "P2: at end of input consume_normal emits EndOfFile (ending `while pending.is_empty()`), which Iterator::next maps to None: the token stream is finite");
         } else {
